@@ -8,6 +8,8 @@
 From Coq Require Import List NArith ZArith Permutation.
 From TarsV Require Import Base.Hex Gen.Consts Select.Selectors Select.Hist Select.WeightProofs Select.SelProofs Select.RingProofs.
 From TarsV Require Xlate.BSWLEquiv.
+From TarsV Require Xlate.SelectEquiv.
+From TarsV Require Xlate.SWRREquiv.
 Import ListNotations.
 
 (* members only: after any history, for any oracle values, a selection that succeeds returns an endpoint of the current set *)
